@@ -755,6 +755,38 @@ pub fn run(p: &[String]) -> Vec<String> {
             let back = reader::xlsx::read_reader(std::io::Cursor::new(buf), true).unwrap();
             vec![hex(&before), hex(&show(&back))]
         }
+        "workbook_part" => {
+            // name0 name1 state0 state1 active_tab owner refers local : two sheets, one defined name N -> 'sheet'!$A$1, saved and reloaded
+            use umya_spreadsheet::*;
+            let names = [unhex(&p[1]), unhex(&p[2])];
+            let states = [u(&p[3]), u(&p[4])]; let tab = u(&p[5]); let owner = u(&p[6]) as usize; let refers = u(&p[7]) as usize; let local = b(&p[8]);
+            let mut book = new_file_empty_worksheet();
+            for i in 0..2 {
+                let ws = book.new_sheet(names[i].clone()).unwrap();
+                ws.get_cell_mut((1, 1)).set_value_string("x");
+                if states[i] < 3 { ws.set_state([SheetStateValues::Hidden, SheetStateValues::VeryHidden, SheetStateValues::Visible][states[i] as usize].clone()); }
+            }
+            book.get_workbook_view_mut().set_active_tab(tab);
+            let addr = format!("'{}'!$A$1", names[refers]);
+            if owner == 0 {
+                // a workbook-level name can only be made from a sheet's one through the public API
+                let ws = book.get_sheet_mut(&0).unwrap(); ws.add_defined_name("N", addr.as_str()).unwrap();
+                let d = ws.get_defined_names_mut().pop().unwrap(); book.add_defined_names(d);
+            } else { let ws = book.get_sheet_mut(&(owner - 1)).unwrap(); ws.add_defined_name("N", addr.as_str()).unwrap(); if local { ws.get_defined_names_mut().last_mut().unwrap().set_local_sheet_id(owner as u32 - 1); } }
+            let show = |book: &Spreadsheet| {
+                let mut all: Vec<String> = vec![];
+                let mut parts: Vec<String> = book.get_sheet_collection().iter().enumerate().map(|(i, w)| {
+                    for d in w.get_defined_names() { all.push(format!("{}={}{}", d.get_name(), d.get_address(), if d.has_local_sheet_id() { format!(" (local to sheet {})", i) } else { String::new() })); }
+                    format!("{}:{:?}", w.get_name(), w.get_state()) }).collect();
+                for d in book.get_defined_names() { all.push(format!("{}={}", d.get_name(), d.get_address())); }
+                all.sort(); parts.push(format!("tab={}", book.get_workbook_view().get_active_tab())); parts.push(format!("names=[{}]", all.join(", "))); parts.join(" | ")
+            };
+            let before = show(&book);
+            let mut buf: Vec<u8> = Vec::new();
+            writer::xlsx::write_writer(&book, &mut buf).unwrap();
+            let back = reader::xlsx::read_reader(std::io::Cursor::new(buf), true).unwrap();
+            vec![hex(&before), hex(&show(&back))]
+        }
         // ---- C04
         "attr_generations" => {
             // text : attribute channels (internal hyperlink location, sheet name, table column name) through three save/load generations
@@ -888,6 +920,27 @@ pub fn run(p: &[String]) -> Vec<String> {
                     if f[4] == "1" { c.get_style_mut().get_number_format_mut().set_format_code("0.00"); }
                 }
             }
+            let before = show(&book);
+            let mut buf: Vec<u8> = Vec::new();
+            umya_spreadsheet::writer::xlsx::write_writer(&book, &mut buf).unwrap();
+            let back = umya_spreadsheet::reader::xlsx::read_reader(std::io::Cursor::new(buf), true).unwrap();
+            vec![hex(&before), hex(&show(&back))]
+        }
+        "rows_roundtrip" => {
+            // "num,hidden,height,cell;..." : row records of Sheet1 (hidden flag, height 12.75 or default, one text cell or none), saved and reloaded
+            let spec = unhex(&p[1]);
+            let mut book = umya_spreadsheet::new_file();
+            {
+                let ws = book.get_sheet_by_name_mut("Sheet1").unwrap();
+                for item in spec.split(';') {
+                    let f: Vec<u32> = item.split(',').map(|x| x.parse().unwrap()).collect();
+                    let r = ws.get_row_dimension_mut(&f[0]);
+                    if f[1] == 1 { r.set_hidden(true); }
+                    if f[2] == 1 { r.set_height(12.75); }
+                    if f[3] == 1 { ws.get_cell_mut((1, f[0])).set_value_string("x"); }
+                }
+            }
+            let show = |book: &umya_spreadsheet::Spreadsheet| { let ws = book.get_sheet_by_name("Sheet1").unwrap(); let mut v: Vec<(u32, String)> = ws.get_row_dimensions().iter().filter(|r| *r.get_hidden() || *r.get_height() != 0.0).map(|r| (*r.get_row_num(), format!("{}: hidden={} height={}", r.get_row_num(), r.get_hidden(), r.get_height()))).collect(); v.sort(); v.into_iter().map(|x| x.1).collect::<Vec<_>>().join(" | ") };
             let before = show(&book);
             let mut buf: Vec<u8> = Vec::new();
             umya_spreadsheet::writer::xlsx::write_writer(&book, &mut buf).unwrap();
